@@ -48,6 +48,15 @@ Definition env_of (ivals : list (string * Z)) (bvals : list (string * bool)) : e
   {| iv := fun x => lookup ivals (show_ivar x) 0%Z;
      bv := fun b => lookup bvals (show_bvar b) false;
      av := fun _ _ => 0%Z; fv := fun _ => [] |}.
+(* C05: is a valuation a valid schedule (every Spec clause holds), and does the model admit it? *)
+Definition valid_schedule (spec : pstate -> list (string * form)) (ops : list op) (e : env) : option (list string * bool) :=
+  match run ops with
+  | RunOk (Some st) =>
+      Some (map fst (filter (fun kf => negb (feval e (snd kf))) (spec st)),
+            forallb (fun gf => feval e (snd gf)) (initialize st))
+  | _ => None
+  end.
+
 (* with array and function interpretations (finite graphs, default 0) *)
 Definition env_full (ivals : list (string * Z)) (bvals : list (string * bool))
            (avals fvals : list (string * list (Z * Z))) : env :=
